@@ -417,6 +417,21 @@ def extract_item(spec, contracts, log):
                 edits.append((a, a, 'INS', P['text'].rstrip() + '\n'))
             nins += 1
 
+    # This Verus loses the frame of `&mut` parameters across a match arm with an `if` guard (measured: a guard on a local already makes
+    # `ensures final(self).a == old(self).a` fail in an arm that assigns another field).  A guard in a function under contract is
+    # therefore only accepted where the overlay expects it (`guards = n`, default 0); anything else is an unsupported construct
+    # (exit 2, undecided) -- never an alarm.
+    if is_fn and mode != 'trusted':
+        n_guards = 0
+        for ln in text.split('\n'):
+            t = ln.strip()
+            if t.startswith(('if ', '} else if ', 'else if ', 'while ', '//', 'assert')) or '==>' in t:
+                continue
+            if re.search(r'[\w\)\]\}"\']\s+if\s+[^{}]*=>', t):
+                n_guards += 1
+        if n_guards != spec.get('guards', 0):
+            raise ExtractError("unsupported construct: %d match guard(s) in %s (overlay expects %d); this Verus loses the frame of "
+                               "&mut parameters across guarded match arms" % (n_guards, what, spec.get('guards', 0)))
     segs = apply_edits(text, edits, what)
     if mode != 'trusted' and not edits:
         assert segs.original() == text
